@@ -1301,6 +1301,13 @@ impl<'a> Gen<'a> {
             let t = self.gen_tx(names[i % 3]);
             self.prog.txs.push(t);
         }
+        if self.collide && n_txs >= 2 && self.r.chance(1, 2) {
+            // two transactions under one name, or under names that differ in letter case only
+            // (the interface and the IR are looked up by the exact name)
+            let first = self.prog.txs[0].name.clone();
+            let last = self.prog.txs.len() - 1;
+            self.prog.txs[last].name = if self.r.chance(1, 2) { first } else { first.to_uppercase() };
+        }
         self.prog.clone()
     }
 }
